@@ -179,6 +179,20 @@ func (g *gen) amount() *big.Int {
 		}
 		return big.NewInt(int64(g.in(1, 1000)))
 	}
+	if g.chance(0.08) {
+		// around the machine-word boundaries: a fast path in 64-bit arithmetic is exact below them
+		b := new(big.Int).Lsh(big.NewInt(1), uint(g.pickInt(53, 63, 64, 64)))
+		switch g.r.Intn(4) {
+		case 0:
+			b.Sub(b, big.NewInt(1))
+		case 1:
+			b.Add(b, big.NewInt(1))
+		case 2:
+			b.Quo(b, big.NewInt(int64(g.in(2, 3)))) // so that a product with a small price crosses the boundary
+		}
+		g.intents["amount_at_word_boundary"]++
+		return b
+	}
 	e := g.in(6, 24)
 	v := new(big.Int).Exp(big.NewInt(10), big.NewInt(int64(e)), nil)
 	return v.Add(v, big.NewInt(int64(g.in(0, 999999))))
@@ -562,6 +576,13 @@ func (g *gen) opAddAllowed(a *MAuction) Op {
 			b := make([]byte, 20)
 			g.r.Read(b)
 			op.Entries = append(op.Entries, AllowedEntry{Who: -2, RawAddr: sdk.AccAddress(b).String(), Max: g.capFor(a).String()})
+		}
+		if g.chance(0.5) {
+			// and an actor once more at the end of the long list, with another cap: the later entry stands
+			dup := op.Entries[0]
+			dup.Max = g.capFor(a).String()
+			op.Entries = append(op.Entries, dup)
+			g.intents["allow_list_duplicate_in_long_list"]++
 		}
 		g.intents["allow_list_of_more_than_100"]++
 	}
